@@ -22,6 +22,7 @@ RULE = ("exhaustive 1-D enumeration for array lengths n<=N_MAX over every slice 
         "envelopes with NaN/inf and outliers 1e3..1e300, paddings and alignments; distinct = distinct (helper, arguments) in domain")
 ASSUMPTIONS = ["numpy basic slicing is the reference semantics", "slices with a step other than None/1 are outside the statement (counted, not judged)"]
 SHARDS = {"quick": 1, "thorough": 8}
+SUITE_UNDER_MONITOR = True
 
 _mon: Monitor = None  # type: ignore
 
